@@ -1,3 +1,4 @@
 pub mod rast;
 pub mod pix;
 pub mod step;
+pub mod wind;
